@@ -37,6 +37,7 @@ func vh_AL() {
 	r.wg.Add(1)
 	r.applyLoop()
 	vDrain()
+	vCheckInv(n, true, true)
 	vAssert(ctl.waits == 2, "C18.apply-loop-returns-to-wait")
 	vAssert(!vHeld(&r.mu), "C18|C20.lock-released")
 	vAssert(post.applied == pre.commit, "C01|C15.everything-committed-gets-applied")
